@@ -53,7 +53,7 @@ theorem startPathsList_strip : ∀ (ks : List Tree) (v : Value) (done : List Tre
       simp only [Function.comp, Tree.at?, hk]
 end
 
-theorem stripNs_value (t : Tree) : (stripNs t).value = t.value := by
+theorem dis_stripNs_value (t : Tree) : (stripNs t).value = t.value := by
   cases t with | node v ks => rfl
 
 /-- Same skeleton ⇒ the `i`-th start nodes exist in both trees and have the same skeleton. -/
